@@ -1,8 +1,17 @@
 /* zvh_train — dictionary training contract (C18).
  *   train <algo def|cover|fastcover|optcover|optfast|legacy|finalize|addent> <capacity> <k> <d> <f> <accel> <steps> <split%> <shrink> <threads> <dictID> <level>
- *         <kind text|same|tiny|empty|small|mixed|bin>:<nbSamples>:<sampleSize>:<seed> <perturb 0|1> <pseed>
+ *         <kind text|same|tiny|empty|small|mixed|bin|off<D>|pool|zero<H>|lead<H>x<B>>:<nbSamples>:<sampleSize>:<seed> <perturb 0|1> <pseed>
+ *         pool = records cut out of a pool of random 64-byte phrases (rich corpus: full-length segments); zero<H>[p<P>] = pool (of P phrases) whose first H records are all-zero
+ *         bytes of exactly <sampleSize> (a blank stretch: epochs of a small k score zero there); lead<H>x<B> = text whose first H samples have exactly B bytes
  *   -> res=<ok:SIZE|zero|err:CLASS> loadC=<ok|null|-> loadD=<ok|null|-> ids=<fromDict,ZDICT,fromCDict,fromDDict> hsize=<header bytes> rt=<ok>/<tried> det=<same|DIFF|na>
- *      content=<xxh64 of the content offered (finalize)> ev=<best-holder events ; separated> dict=<hex if <= 8000 bytes else ->
+ *      content=<xxh64 of the content offered (finalize)> ev=<best-holder events ; separated> dict=<hex if <= 8000 bytes else -> grow=<n> cands=<n>
+ *      grow = times the optimiser's result holder took a dictionary LARGER than the one it held (its buffer had to grow), cands = candidates it took.
+ * Stale memory: the two runs of a single-threaded operation get destinations pre-filled with different bytes and (zvh_train_fill.h) every fresh malloc block of
+ * cover.c / fastcover.c / zdict.c filled with a different byte, so a byte of the result that the trainer never wrote shows as det=DIFF.
+ * Excluded shape (reported, see EXCLUDED below): res=excluded:<name>.
+ *   epochs <maxDictSize> <nbDmers >= 1> <k >= 1> <passes>          -> <num> <size>     (COVER_computeEpochs, vs Train.computeEpochs)
+ *   ctx <fast|cover> <d> <split%> <f> <kind>:<nb>:<size>:<seed>     -> ctx res=<ok|err:CLASS|excluded> n=<d-mer count> total=<bytes> train=<bytes of the training part> nbTrain=<n> nbTest=<n>
+ *         (FASTCOVER_ctx_init / COVER_ctx_init at function level, vs Train.ctxInit)
  * The dictionary must fit the capacity, load on both sides, carry one non-zero ID everywhere, and every sample must round-trip with it. */
 #include "zvh_common.h"
 #include <pthread.h>
@@ -11,6 +20,9 @@
 #include <unistd.h>
 #define ZDICT_STATIC_LINKING_ONLY
 #include "zdict.h"
+#include "cover.h"
+size_t zvt_fast_ctx(const void* sb, const size_t* ss, unsigned nb, unsigned d, double split, unsigned f, size_t* nbDmers);
+size_t zvt_cover_ctx(const void* sb, const size_t* ss, unsigned nb, unsigned d, double split, size_t* nbDmers);
 
 static pthread_mutex_t g_log = PTHREAD_MUTEX_INITIALIZER; static char g_ev[1 << 16]; static size_t g_evlen;
 static pthread_t g_main; static int g_perturb; static __thread unsigned t_rng;
@@ -19,16 +31,26 @@ void zvt_event(const char* fmt, unsigned long long a, unsigned long long b) { ch
 int zvt_is_dispatcher(void) { return pthread_equal(pthread_self(), g_main); }
 void zvt_perturb(void) { if (g_perturb) { struct timespec ts; if (!t_rng) t_rng = (unsigned)(size_t)pthread_self() * 2654435761u + 12345u; t_rng = t_rng * 1103515245u + 12345u; ts.tv_sec = 0; ts.tv_nsec = (long)((t_rng >> 16) & 1023) * 1000; if ((t_rng >> 27) & 1) nanosleep(&ts, NULL); } }
 
+unsigned char zvt_fill_byte = 0x11; size_t zvt_grow, zvt_cands;
+void* zvt_fill_malloc(size_t n) { void* p = malloc(n); if (p && n) memset(p, zvt_fill_byte, n); return p; }
+static void prefill(unsigned char* p, size_t n, unsigned a, unsigned m) { size_t i; for (i = 0; i < n; i++) p[i] = (unsigned char)(a + i * m); }
 static unsigned long long rs;
 static unsigned rnd(void) { rs = rs * 6364136223846793005ULL + 1442695040888963407ULL; return (unsigned)(rs >> 33); }
 static void gen_samples(const char* kind, unsigned nb, size_t ssz, unsigned long long seed, unsigned char** buf, size_t** sizes, size_t* total) {
     size_t cap = (size_t)nb * (2 * ssz + 80) + 64, pos = 0; unsigned i; unsigned char* b = (unsigned char*)malloc(cap); size_t* sz = (size_t*)malloc((nb ? nb : 1) * sizeof *sz);
     static const char* words[] = { "alpha", "beta", "gamma", "delta", "{\"id\":", ",\"name\":\"", "\"}", "http://", ".com/", "user", "2026-09-", "error", "value=", "\n", " ", "0123" };
+    unsigned H = 0, B = 0, P = nb + 16; int const isZero = !strncmp(kind, "zero", 4), isLead = !strncmp(kind, "lead", 4), isPool = isZero || !strcmp(kind, "pool"); unsigned char* pool = NULL;
     rs = seed;
+    if (isZero) { unsigned pp = 0; sscanf(kind + 4, "%up%u", &H, &pp); if (pp) P = pp; }
+    if (isLead) { sscanf(kind + 4, "%ux%u", &H, &B); if (B > 2 * ssz) B = (unsigned)(2 * ssz); }
+    if (isPool) { size_t q; pool = (unsigned char*)malloc((size_t)P * 64); for (q = 0; q < (size_t)P * 64; q++) pool[q] = (unsigned char)rnd(); }
     for (i = 0; i < nb; i++) { size_t n = ssz, j = 0;
         if (!strcmp(kind, "empty")) n = 0; else if (!strcmp(kind, "small")) n = rnd() % 8; else if (!strcmp(kind, "mixed")) n = (rnd() % 5 == 0) ? 0 : (rnd() % 4 == 0 ? rnd() % 9 : 1 + rnd() % (unsigned)(2 * ssz + 1));
         else if (strcmp(kind, "same")) n = ssz / 2 + rnd() % (unsigned)(ssz + 1);
-        if (!strcmp(kind, "same")) { if (i == 0) { while (j < n) { const char* w = words[rnd() % 16]; size_t l = strlen(w); if (l > n - j) l = n - j; memcpy(b + pos + j, w, l); j += l; } } else memcpy(b + pos, b, n); }
+        if (i < H) n = isLead ? B : ssz;
+        if (isZero && i < H) memset(b + pos, 0, n);
+        else if (isPool) { while (j < n) { size_t l = 64; if (l > n - j) l = n - j; memcpy(b + pos + j, pool + (size_t)(rnd() % P) * 64, l); j += l; } }
+        else if (!strcmp(kind, "same")) { if (i == 0) { while (j < n) { const char* w = words[rnd() % 16]; size_t l = strlen(w); if (l > n - j) l = n - j; memcpy(b + pos + j, w, l); j += l; } } else memcpy(b + pos, b, n); }
         else if (!strcmp(kind, "tiny")) { for (j = 0; j < n; j++) b[pos + j] = (unsigned char)("ab"[rnd() & 1]); }
         else if (!strcmp(kind, "bin") || !strncmp(kind, "off", 3)) { for (j = 0; j < n; j++) b[pos + j] = (unsigned char)rnd(); }
         else { while (j < n) { const char* w = words[rnd() % 16]; size_t l = strlen(w); if (rnd() % 11 == 0) { b[pos + j++] = (unsigned char)('a' + rnd() % 26); continue; } if (l > n - j) l = n - j; memcpy(b + pos + j, w, l); j += l; } }
@@ -37,7 +59,7 @@ static void gen_samples(const char* kind, unsigned nb, size_t ssz, unsigned long
         size_t const D = (size_t)atoi(kind + 3); size_t p2 = 0; for (i = 0; i < nb; i++) { if (D <= pos && p2 + sz[i] + D + 64 <= pos && sz[i] >= 48) memcpy(b + p2, b + pos - D, 48); p2 += sz[i]; } }
     {   /* hand the trainers a buffer of EXACTLY the samples' total size: a read past the last sample hits the sanitizer's redzone */
         unsigned char* exact = (unsigned char*)malloc(pos ? pos : 1); memcpy(exact, b, pos); free(b); b = exact; }
-    *buf = b; *sizes = sz; *total = pos;
+    free(pool); *buf = b; *sizes = sz; *total = pos;
 }
 static void on_alarm(int sg) { (void)sg; { static const char m[] = "res=HANG\n"; if (write(1, m, sizeof m - 1) < 0) {} } _exit(3); }
 
@@ -55,6 +77,35 @@ static size_t run_algo(const char* algo, void* dict, size_t cap, const unsigned 
     {   size_t cn = total < (size_t)k ? total : (size_t)k; if (cn > cap) cn = cap; memcpy((char*)dict + cap - cn, sb, cn); return ZDICT_addEntropyTablesFromBuffer(dict, cn, cap, sb, ss, nb); }
 }
 
+/* EXCLUDED: one shape of operation is answered without calling the library, because on the unchanged tree it kills the process (a defect of the library, reported;
+ * not something this check may tolerate silently: the python side counts and lists every excluded operation in the evidence):
+ * the optimisers (ZDICT_optimizeTrainFromBuffer_fastCover, also reached through ZDICT_trainFromBuffer which always splits 75/25, and
+ * ZDICT_optimizeTrainFromBuffer_cover) with splitPoint < 1 check the TOTAL size of all samples against max(d,8) in FASTCOVER_ctx_init / COVER_ctx_init, but count d-mers on
+ * the TRAINING part only: nbDmers = trainingSize - max(d,8) + 1.  A training part of exactly max(d,8)-1 bytes gives 0 d-mers and COVER_computeEpochs divides by zero
+ * (SIGFPE, cover.c:719); a smaller one wraps the count around: fastCover then reads far past the sample buffer (FASTCOVER_selectSegment), cover asks malloc for 2^64-x bytes
+ * (an allocation error in production, an abort under ASan).
+ * Keyed to exactly that: an optimiser, effective split < 1, the early argument checks passed (capacity >= 256, >= 5 training samples, >= 1 test sample, total size >=
+ * max(d,8)), and a training part below max(d,8) bytes for a d the search visits (fastCover: only d 6 / 8 ever reach a candidate).
+ * Since the repair of the tree (fix 3d7351b) these operations RUN by default and must end in an error code; ZV_C18_EXCLUDE=1 restores the exclusion (to study a tree without the repair). */
+static const char* excluded_shape(const char* algo, double split, unsigned k, unsigned d, unsigned f, unsigned accel, size_t cap, unsigned nb, const size_t* ss, size_t total) {
+    int const isDef = !strcmp(algo, "def"), isFast = isDef || !strcmp(algo, "optfast"), isCover = !strcmp(algo, "optcover");
+    double const sp = isDef ? 0.75 : (split <= 0.0 ? (isFast ? 0.75 : 1.0) : split); unsigned nbTrain, i, dv, kMinK; size_t trainSum = 0;
+    if (!getenv("ZV_C18_EXCLUDE")) return NULL;      /* the defect is repaired in the tree (fix 3d7351b): the shape runs by default; ZV_C18_EXCLUDE=1 restores the exclusion */
+    if (!isFast && !isCover) return NULL;
+    if (isDef) { k = 0; d = 8; f = 20; accel = 1; }
+    kMinK = k ? k : 50;
+    if (!(sp < 1.0) || cap < 256 || kMinK < (d ? d : 8)) return NULL;                      /* refused by the argument checks, never reaches the context */
+    if (isFast && (accel > 10 || (f ? f : 20) > 31)) return NULL;                          /* refused at once / no candidate passes the parameter check */
+    nbTrain = (unsigned)((double)nb * sp); if (nbTrain < 5 || nb - nbTrain < 1) return NULL;
+    for (i = 0; i < nbTrain; i++) trainSum += ss[i];
+    if (total >= ((size_t)1 << 32) - 1) return NULL;
+    for (dv = d ? d : 6; dv <= (d ? d : 8); dv += 2) { size_t const need = dv > 8 ? dv : 8; int const candidate = kMinK <= cap && (!isFast || dv == 6 || dv == 8);
+        if (total < need) return NULL;                                                       /* srcSize_wrong */
+        if (trainSum + 1 == need && candidate) return "optimiser-training-part-below-max-d-8-bytes";                 /* 0 d-mers: division by zero */
+        if (trainSum + 1 < need && (isCover || candidate)) return "optimiser-training-part-below-max-d-8-bytes"; }   /* d-mer count wraps around */
+    return NULL;
+}
+
 int main(void) {
     char* line; signal(SIGALRM, on_alarm); g_main = pthread_self();
     while ((line = zv_getline())) {
@@ -63,15 +114,18 @@ int main(void) {
             char* algo = strtok(NULL, " "); size_t cap = (size_t)strtoull(strtok(NULL, " "), NULL, 10); unsigned k = (unsigned)atoi(strtok(NULL, " ")), d = (unsigned)atoi(strtok(NULL, " ")), f = (unsigned)atoi(strtok(NULL, " ")), accel = (unsigned)atoi(strtok(NULL, " ")), steps = (unsigned)atoi(strtok(NULL, " "));
             double split = atoi(strtok(NULL, " ")) / 100.0; unsigned shrink = (unsigned)atoi(strtok(NULL, " ")), threads = (unsigned)atoi(strtok(NULL, " ")), dictID = (unsigned)strtoul(strtok(NULL, " "), NULL, 10); int level = atoi(strtok(NULL, " "));
             char* spec = strtok(NULL, " "); char kind[16]; unsigned nb; size_t ssz; unsigned long long seed; unsigned char* sb; size_t* ss; size_t total; unsigned char* dict; unsigned char* dict2; size_t r, r2 = 0; unsigned long long ch = 0, ch2;
-            const char* det = "na"; char evcopy[1 << 16];
+            const char* det = "na"; char evcopy[1 << 16]; size_t grow, cands;
             g_perturb = atoi(strtok(NULL, " ")); t_rng = (unsigned)strtoul(strtok(NULL, " "), NULL, 10) | 1u;
             sscanf(spec, "%15[^:]:%u:%zu:%llu", kind, &nb, &ssz, &seed);
             gen_samples(kind, nb, ssz, seed, &sb, &ss, &total);
             dict = (unsigned char*)malloc(cap ? cap : 1); dict2 = (unsigned char*)malloc(cap ? cap : 1); g_evlen = 0; g_ev[0] = 0;
+            prefill(dict, cap, 0xA5, 1); prefill(dict2, cap, 0x3C, 7); zvt_fill_byte = 0x11; zvt_grow = 0; zvt_cands = 0;   /* stale bytes differ between the two runs */
+            if (excluded_shape(algo, split, k, d, f, accel, cap, nb, ss, total)) { printf("res=excluded:%s\n", excluded_shape(algo, split, k, d, f, accel, cap, nb, ss, total)); fflush(stdout); free(sb); free(ss); free(dict); free(dict2); continue; }
             alarm(240);
             r = run_algo(algo, dict, cap, sb, ss, nb, total, k, d, f, accel, steps, split, shrink, threads, dictID, level, &ch);
             memcpy(evcopy, g_ev, g_evlen + 1);
-            if (threads <= 1) { void* shift = malloc(1000 + (size_t)(seed % 5000)); r2 = run_algo(algo, dict2, cap, sb, ss, nb, total, k, d, f, accel, steps, split, shrink, threads, dictID, level, &ch2); free(shift);
+            grow = zvt_grow; cands = zvt_cands;
+            if (threads <= 1) { void* shift = malloc(1000 + (size_t)(seed % 5000)); zvt_fill_byte = 0xEE; r2 = run_algo(algo, dict2, cap, sb, ss, nb, total, k, d, f, accel, steps, split, shrink, threads, dictID, level, &ch2); free(shift);
                 det = (ZDICT_isError(r) && ZDICT_isError(r2)) || (r == r2 && (ZDICT_isError(r) || !memcmp(dict, dict2, r))) ? "same" : "DIFF"; }
             alarm(0);
             if (ZDICT_isError(r)) printf("res=err:%s loadC=- loadD=- ids=0,0,0,0 hsize=0 rt=0/0 det=%s content=0 ev=%s dict=-\n", zv_errclass(r), det, evcopy[0] ? evcopy : "-");
@@ -84,9 +138,26 @@ int main(void) {
                     ZSTD_freeCCtx(c); ZSTD_freeDCtx(dc); free(o); free(back); }
                 printf("res=ok:%zu loadC=%s loadD=%s ids=%u,%u,%u,%u hsize=%zu rt=%u/%u det=%s content=%llu ev=%s dict=", r, cd ? "ok" : "null", dd ? "ok" : "null", ZSTD_getDictID_fromDict(dict, r), ZDICT_getDictID(dict, r),
                        cd ? ZSTD_getDictID_fromCDict(cd) : 0, dd ? ZSTD_getDictID_fromDDict(dd) : 0, ZDICT_isError(hs) ? 0 : hs, ok, tried, det, ch, evcopy[0] ? evcopy : "-");
-                if (r <= 8000) zv_puthex(dict, r); else printf("-"); printf("\n");
+                if (r <= 8000) zv_puthex(dict, r); else printf("-"); printf(" grow=%zu cands=%zu\n", grow, cands);
                 ZSTD_freeCDict(cd); ZSTD_freeDDict(dd); }
             free(sb); free(ss); free(dict); free(dict2);
+        } else if (!strcmp(op, "epochs")) {
+            unsigned cap = (unsigned)strtoul(strtok(NULL, " "), NULL, 10), n = (unsigned)strtoul(strtok(NULL, " "), NULL, 10), k = (unsigned)strtoul(strtok(NULL, " "), NULL, 10), passes = (unsigned)strtoul(strtok(NULL, " "), NULL, 10);
+            if (n == 0 || k == 0 || passes == 0) printf("undefined\n");   /* the C function divides by zero there: not called */
+            else { COVER_epoch_info_t const e = COVER_computeEpochs(cap, n, k, passes); printf("%u %u\n", e.num, e.size); }
+        } else if (!strcmp(op, "ctx")) {
+            char* which = strtok(NULL, " "); unsigned d = (unsigned)atoi(strtok(NULL, " ")); double split = atoi(strtok(NULL, " ")) / 100.0; unsigned f = (unsigned)atoi(strtok(NULL, " "));
+            char* spec = strtok(NULL, " "); char kind[16]; unsigned nb, i, nbTrain; size_t ssz, total, trainSum = 0, n = 0, r, need = d > 8 ? d : 8; unsigned long long seed; unsigned char* sb; size_t* ss; int const isCover = !strcmp(which, "cover");
+            sscanf(spec, "%15[^:]:%u:%zu:%llu", kind, &nb, &ssz, &seed);
+            gen_samples(kind, nb, ssz, seed, &sb, &ss, &total);
+            nbTrain = split < 1.0 ? (unsigned)((double)nb * split) : nb; for (i = 0; i < nbTrain; i++) trainSum += ss[i];
+            /* EXCLUDED (same defect as excluded_shape above, at function level): COVER_ctx_init with a training part below max(d,8) - 1 bytes asks malloc for 2^64-x bytes (abort under ASan) */
+            if (isCover && getenv("ZV_C18_EXCLUDE") && split < 1.0 && total >= need && total < 0xFFFFFFFFu && nbTrain >= 5 && nb - nbTrain >= 1 && trainSum + 1 < need)
+                printf("ctx res=excluded n=0 total=%zu train=%zu nbTrain=%u nbTest=%u\n", total, trainSum, nbTrain, split < 1.0 ? nb - nbTrain : nb);
+            else { r = isCover ? zvt_cover_ctx(sb, ss, nb, d, split, &n) : zvt_fast_ctx(sb, ss, nb, d, split, f, &n);
+                if (ZDICT_isError(r)) printf("ctx res=err:%s n=0 total=%zu train=%zu nbTrain=%u nbTest=%u\n", zv_errclass(r), total, trainSum, nbTrain, split < 1.0 ? nb - nbTrain : nb);
+                else printf("ctx res=ok n=%zu total=%zu train=%zu nbTrain=%u nbTest=%u\n", n, total, trainSum, nbTrain, split < 1.0 ? nb - nbTrain : nb); }
+            free(sb); free(ss);
         } else printf("bad-op\n");
         fflush(stdout);
     }
